@@ -58,6 +58,22 @@ pub const CORPUS: &[&[u8]] = &[
     b"ab/./ab//ab/../ab/ab/a/./",
     b"ab/./ab//ab/../ab/ab/a/",
     b"ab/./ab//ab/../ab/ab/a/./\x80",
+    // periodic heap-sized content (views of one buffer at offsets 0, 4, 8 hold the same bytes)
+    b"ab./ab./ab./ab./ab./ab./",
+    // word-at-a-time fast paths: 8..40 bytes differing at 1-3 positions inside the first word (in
+    // opposite directions), at the word boundary, and only in the tail
+    b"incoming",
+    b"outgoing",
+    b"bcdefghi",
+    b"ccdefghh",
+    b"bbdefgii",
+    b"bcdefghj",
+    b"bcdefghij",
+    b"bcdefghjj",
+    b"bcdefgiii",
+    b"bcdefghijklmnopqrstuvwxyzbcdefghijklmnop",
+    b"ccdefghhjklmnopqrstuvwxyzbcdefghijklmnop",
+    b"bcdefghijklmnopqrstuvwxyzbcdefghijklmnoq",
 ];
 
 pub fn hex(b: &[u8]) -> String {
@@ -83,25 +99,72 @@ fn utf8(b: Bytes) -> Option<&'static str> {
     std::str::from_utf8(b).ok()
 }
 
+/// RELATED values holding `b` (heap-sized `b` only, so that views stay allocated): two zero-copy
+/// views at different offsets of ONE heap buffer holding `b ++ b` (plus offsets 4 and 8 when `b` has
+/// period 4), a clone of a view, and — for valid UTF-8 without line breaks — the duplicate lines of
+/// one heap text through `HipStr::lines()`.
+fn related_byt<B: Backend>(b: Bytes) -> Vec<HipByt<'static, B>> {
+    let n = b.len();
+    if n <= 23 {
+        return vec![];
+    }
+    let dbl = [b, b].concat();
+    let heap: HipByt<'static, B> = HipByt::from(dbl.as_slice());
+    let mut out = vec![heap.slice(0..n), heap.slice(n..2 * n)];
+    for off in [4usize, 8] {
+        if dbl[off..off + n] == *b {
+            out.push(heap.slice(off..off + n));
+        }
+    }
+    out.push(out[0].clone());
+    out
+}
+fn related_str<B: Backend>(b: Bytes) -> Vec<HipStr<'static, B>> {
+    let Some(s) = utf8(b) else { return vec![] };
+    let mut out: Vec<HipStr<'static, B>> = related_byt::<B>(b).into_iter().map(|v| HipStr::try_from(v).expect("utf8")).collect();
+    if b.len() > 23 && !s.contains(['\n', '\r']) {
+        let text: HipStr<'static, B> = HipStr::from(format!("{s}\n{s}\n{s}\n"));
+        out.extend(text.lines());
+    }
+    out
+}
+
 impl<B: Backend> Sample for HipByt<'static, B> {
     fn make(b: Bytes) -> Vec<Self> {
-        vec![HipByt::borrowed(b), HipByt::from(b)]
+        let mut v = vec![HipByt::borrowed(b), HipByt::from(b)];
+        v.extend(related_byt::<B>(b));
+        v.extend(related_str::<B>(b).into_iter().skip(3).map(HipByt::from));
+        v
     }
 }
 impl<B: Backend> Sample for HipStr<'static, B> {
     fn make(b: Bytes) -> Vec<Self> {
-        utf8(b).map_or(vec![], |s| vec![HipStr::borrowed(s), HipStr::from(s)])
+        let mut v = utf8(b).map_or(vec![], |s| vec![HipStr::borrowed(s), HipStr::from(s)]);
+        v.extend(related_str::<B>(b));
+        v
     }
 }
 impl<B: Backend> Sample for HipOsStr<'static, B> {
     fn make(b: Bytes) -> Vec<Self> {
-        vec![HipOsStr::borrowed(OsStr::from_bytes(b)), HipOsStr::from(OsStr::from_bytes(b))]
+        let mut v = vec![HipOsStr::borrowed(OsStr::from_bytes(b)), HipOsStr::from(OsStr::from_bytes(b))];
+        if b.len() > 23 {
+            let dbl = [b, b].concat();
+            let heap: HipOsStr<'static, B> = HipOsStr::from(OsStr::from_bytes(&dbl));
+            let all = heap.as_os_str().as_bytes();
+            let n = b.len();
+            v.push(heap.slice_ref(OsStr::from_bytes(&all[0..n])));
+            v.push(heap.slice_ref(OsStr::from_bytes(&all[n..2 * n])));
+        }
+        v.extend(related_str::<B>(b).into_iter().map(HipOsStr::from));
+        v
     }
 }
 impl<B: Backend> Sample for HipPath<'static, B> {
     fn make(b: Bytes) -> Vec<Self> {
         let p = Path::new(OsStr::from_bytes(b));
-        vec![HipPath::borrowed(p), HipPath::from(p)]
+        let mut v = vec![HipPath::borrowed(p), HipPath::from(p)];
+        v.extend(<HipOsStr<'static, B> as Sample>::make(b).into_iter().skip(2).map(HipPath::from));
+        v
     }
 }
 
@@ -334,8 +397,9 @@ where
         r.check(got_h == want_h, "HashMap::get(x.borrow()) finds x's entry", qb, &[], || format!("by owner: {} by borrowed: {}", show(want_h), show(got_h)));
         r.check(got_b == want_b, "BTreeMap::get(x.borrow()) finds x's entry", qb, &[], || format!("by owner: {} by borrowed: {}", show(want_b), show(got_b)));
     }
-    // single-key maps: `get(q.borrow())` hits iff `key == q`
-    for (kb, k) in xs {
+    // single-key maps: `get(q.borrow())` hits iff `key == q` (keys: one value per corpus string)
+    let firsts: Vec<&(Bytes, O)> = xs.iter().enumerate().filter(|(i, (b, _))| *i == 0 || xs[i - 1].0 != *b).map(|(_, e)| e).collect();
+    for (kb, k) in firsts.iter().map(|e| (&e.0, &e.1)) {
         let mut hm1: HashMap<O, (), Fixed> = HashMap::default();
         hm1.insert(k.clone(), ());
         let mut bt1: BTreeMap<O, ()> = BTreeMap::new();
@@ -411,14 +475,27 @@ where
     }
 }
 
-/// `impl Ord for A`.
-pub fn cmp_row<A: Ord>(row: &'static str, view: &str, xs: &[(Bytes, A)]) {
+/// `impl Ord for A`: `cmp` and the provided methods (`max`, `min`, `clamp`, and `partial_cmp` of the
+/// same type), called on the real type so that an overridden provided method is exercised.
+pub fn cmp_row<A: Ord + Clone>(row: &'static str, view: &str, xs: &[(Bytes, A)]) {
     let mut r = Report::new(row);
+    let third = xs.iter().find(|(b, _)| b.len() == 2);
     for (xb, x) in xs {
         for (yb, y) in xs {
             let want = view_cmp(view, xb, yb);
             r.check(x.cmp(y) == want, "a.cmp(b) == std view cmp", xb, yb, || format!("impl {} std({view}) {}", o2s(Some(x.cmp(y))), o2s(Some(want))));
             r.check((x.cmp(y) == Ordering::Equal) == (x == y), "(cmp == Equal) == (a == b)", xb, yb, String::new);
+            r.check(x.partial_cmp(y) == Some(want), "a.partial_cmp(b) == Some(std view cmp)", xb, yb, || format!("impl {} std({view}) {}", o2s(x.partial_cmp(y)), o2s(Some(want))));
+            r.check((x < y) == want.is_lt() && (x <= y) == want.is_le() && (x > y) == want.is_gt() && (x >= y) == want.is_ge(), "< <= > >= agree with std view cmp", xb, yb, String::new);
+            let (mx, mn) = (A::max(x.clone(), y.clone()), A::min(x.clone(), y.clone()));
+            let (emx, emn) = if want.is_gt() { (x, y) } else { (y, x) };
+            r.check(mx.cmp(emx) == Ordering::Equal && mn.cmp(emn) == Ordering::Equal, "max / min pick the operand std picks", xb, yb, String::new);
+            if let Some((tb, t)) = third {
+                let (lo, hi, lob, hib) = if view_cmp(view, yb, tb).is_gt() { (t, y, tb, yb) } else { (y, t, yb, tb) };
+                let e = if view_cmp(view, xb, lob).is_lt() { lo } else if view_cmp(view, xb, hib).is_gt() { hi } else { x };
+                let got = std::panic::catch_unwind(std::panic::AssertUnwindSafe(|| x.clone().clamp(lo.clone(), hi.clone())));
+                r.check(matches!(&got, Ok(g) if g.cmp(e) == Ordering::Equal), "clamp agrees with std view", xb, yb, || format!("lo={} hi={} panicked={}", hex(lob), hex(hib), got.is_err()));
+            }
         }
     }
 }
@@ -432,8 +509,18 @@ pub fn eq_marker<A: Eq>(row: &'static str, xs: &[(Bytes, A)]) {
 }
 
 /// `impl Hash for A`: the stream is the one the std view feeds, and `a == b ⇒ hash(a) == hash(b)`.
-pub fn hash_row<A: Hash + Eq>(row: &'static str, view: &str, xs: &[(Bytes, A)]) {
+pub fn hash_row<A: Hash + Eq + Clone>(row: &'static str, view: &str, xs: &[(Bytes, A)]) {
     let mut r = Report::new(row);
+    // HashSet dedup: as many keys as distinct contents per the view `==` of the type
+    // (`view` names the hash view; equality classes of str/bytes/osstr are the bytes, of path the components)
+    let set: std::collections::HashSet<A, Fixed> = xs.iter().map(|(_, x)| x.clone()).collect();
+    let mut reps: Vec<Bytes> = vec![];
+    for (b, _) in xs {
+        if !reps.iter().any(|q| view_eq(view, q, b)) {
+            reps.push(b);
+        }
+    }
+    r.check(set.len() == reps.len(), "HashSet dedups to the distinct std-view values", &[], &[], || format!("set has {} keys, {} distinct values", set.len(), reps.len()));
     for (xb, x) in xs {
         let (got, want) = (stream(x), view_hash(view, xb));
         r.check(got == want, "hash stream == std view hash stream", xb, &[], || format!("impl {} std({view}) {}", hex(&got), hex(&want)));
